@@ -123,85 +123,40 @@ theorem Inv.combine {r1 r2 r : Representation} {h1 h2 : List Hint}
   obtain ⟨ip2, ia2, in2, ii2, ic2, it2⟩ := i2
   obtain ⟨b1, m1⟩ := r1
   obtain ⟨b2, m2⟩ := r2
-  have hb : ∃ b, (match b1, b2 with
-         | a, .rust => some a
-         | .rust, b => some b
-         | _, _ => none) = some b ∧ r.repr = b := by
-    simp only [Derive.combine] at hc
-    split at hc
-    · simp at hc
-    · rename_i repr hrepr
-      split at hc
-      · simp at hc
-      · simp at hc; subst hc; exact ⟨repr, hrepr, rfl⟩
-  have hm : ∃ m, (match m1, m2 with
-           | some (.packed a), some (.packed b) => if a ≠ b then none else some (some (.packed a))
-           | some (.align a), some (.align b) => some (some (.align (max a b)))
-           | some _, some _ => none
-           | a, none => some a
-           | none, b => some b) = some m ∧ r.modifier = m := by
-    simp only [Derive.combine] at hc
-    split at hc
-    · simp at hc
-    · split at hc
-      · simp at hc
-      · rename_i m hmm; simp at hc; subst hc; exact ⟨m, hmm, rfl⟩
-  obtain ⟨b, hb1, hb2⟩ := hb
-  obtain ⟨m, hm1, hm2⟩ := hm
-  obtain ⟨rb, rm⟩ := r
-  simp only at hb2 hm2
-  subst hb2 hm2
-  -- base part: one of the two is `rust`
-  have hbase : (b2 = .rust ∧ rb = b1) ∨ (b1 = .rust ∧ rb = b2) := by
-    cases b1 <;> cases b2 <;> simp_all
-  have hmod :
-      (m2 = none ∧ rm = m1) ∨ (m1 = none ∧ rm = m2) ∨
-      (∃ a, m1 = some (.packed a) ∧ m2 = some (.packed a) ∧ rm = some (.packed a)) ∨
-      (∃ a b, m1 = some (.align a) ∧ m2 = some (.align b) ∧ rm = some (.align (max a b))) := by
-    cases m1 with
-    | none => cases m2 <;> simp_all
-    | some x =>
-      cases m2 with
-      | none => simp_all
-      | some y =>
-        cases x <;> cases y <;> simp_all
-        · split at hm1 <;> simp_all
-  constructor
-  · intro n hn
-    rcases hmod with ⟨h2, h1⟩ | ⟨h1, h2⟩ | ⟨a, h1, h2, h3⟩ | ⟨a, b, h1, h2, h3⟩
-    · subst h1; have := ip1 n hn; have := in2 h2
-      simp_all [packsOf_append, alignsOf_append]
-    · subst h2; have := ip2 n hn; have := in1 h1
-      simp_all [packsOf_append, alignsOf_append]
-    · simp only at hn; rw [h3] at hn; cases hn
-      have := ip1 n h1; have := ip2 n h2
-      simp_all [packsOf_append, alignsOf_append]; grind
-    · simp only at hn; rw [h3] at hn; cases hn
-  · intro n hn
-    rcases hmod with ⟨h2, h1⟩ | ⟨h1, h2⟩ | ⟨a, h1, h2, h3⟩ | ⟨a, b, h1, h2, h3⟩
-    · subst h1; have := ia1 n hn; have := in2 h2
-      simp_all [packsOf_append, alignsOf_append]
-    · subst h2; have := ia2 n hn; have := in1 h1
-      simp_all [packsOf_append, alignsOf_append]
-    · simp only at hn; rw [h3] at hn; cases hn
-    · simp only at hn; rw [h3] at hn; cases hn
-      have := ia1 a h1; have := ia2 b h2
-      simp_all [packsOf_append, alignsOf_append]; grind
-  · intro hn
-    simp only at hn
-    rcases hmod with ⟨h2, h1⟩ | ⟨h1, h2⟩ | ⟨a, h1, h2, h3⟩ | ⟨a, b, h1, h2, h3⟩
-    · subst h1; have := in1 hn; have := in2 h2
-      simp_all [packsOf_append, alignsOf_append]
-    · subst h2; have := in2 hn; have := in1 h1
-      simp_all [packsOf_append, alignsOf_append]
-    · rw [h3] at hn; cases hn
-    · rw [h3] at hn; cases hn
-  · rcases hbase with ⟨h, h'⟩ | ⟨h, h'⟩ <;> subst h <;> subst h' <;>
-      simp_all [intsOf_append]
-  · rcases hbase with ⟨h, h'⟩ | ⟨h, h'⟩ <;> subst h <;> subst h' <;>
-      simp_all [hasC_append]
-  · rcases hbase with ⟨h, h'⟩ | ⟨h, h'⟩ <;> subst h <;> subst h' <;>
-      simp_all [hasTransparent_append]
+  simp only [Derive.combine] at hc
+  cases hb : combineBase b1 b2 with
+  | none => simp [hb] at hc
+  | some rb =>
+    cases hm : combineMod m1 m2 with
+    | none => simp [hb, hm] at hc
+    | some rm =>
+      simp [hb, hm] at hc
+      subst hc
+      refine ⟨?_, ?_, ?_, ?_, ?_, ?_⟩
+      · intro n hn
+        simp only at hn ip1 ip2 ia1 ia2 in1 in2
+        subst hn
+        rcases m1 with _ | (a | a) <;> rcases m2 with _ | (b | b) <;>
+          simp [combineMod] at hm <;> simp [packsOf_append, alignsOf_append] <;> grind
+      · intro n hn
+        simp only at hn ip1 ip2 ia1 ia2 in1 in2
+        subst hn
+        rcases m1 with _ | (a | a) <;> rcases m2 with _ | (b | b) <;>
+          simp [combineMod] at hm <;> simp [packsOf_append, alignsOf_append] <;> grind
+      · intro hn
+        simp only at hn ip1 ip2 ia1 ia2 in1 in2
+        subst hn
+        rcases m1 with _ | (a | a) <;> rcases m2 with _ | (b | b) <;>
+          simp [combineMod] at hm <;> simp [packsOf_append, alignsOf_append] <;> grind
+      · simp only at ii1 ii2 ⊢
+        cases b1 <;> cases b2 <;> simp [combineBase] at hb <;> subst hb <;>
+          simp_all [intsOf_append]
+      · simp only at ic1 ic2 ⊢
+        cases b1 <;> cases b2 <;> simp [combineBase] at hb <;> subst hb <;>
+          simp_all [hasC_append]
+      · simp only at it1 it2 ⊢
+        cases b1 <;> cases b2 <;> simp [combineBase] at hb <;> subst hb <;>
+          simp_all [hasTransparent_append]
 
 theorem Inv.getReprFrom {as : List (List Hint)} : ∀ {acc r : Representation} {hs : List Hint},
     Inv acc hs → getReprFrom acc as = some r → Inv r (hs ++ as.flatten) := by
